@@ -13,7 +13,8 @@ import Tickit.Model.EvLoop
   Model/EvLoop.lean.  Every function of that file that (transitively) reaches one of the places where the two
   configurations differ — recording a signal, `tickit_watch_signal`, the cancel hook of a signal watch, the
   wait, the callback of an io watch, `dispatch_signals`, construction, destruction — is restated here,
-  *textually unchanged*, so that it binds to the definitions of this namespace; the differing leaves are
+  *textually unchanged*, so that it binds to the definitions of this namespace (the loop of the repaired
+  `tickit_evloop_invoke_sigwatches` is shared: `sigSnapLoopG`); the differing leaves are
   written out (`sigRecord`, `raiseSig`, `ensurePipe`, `watchSignal`, `unwatchSignal`, `cancelHook`,
   `pollRevents`, `ppoll`, `onSigpipeReadable`, `ioCb`, `build`, `destroy`).
 
@@ -22,8 +23,8 @@ import Tickit.Model.EvLoop
   `signums` stay empty (`EventLoopData.watched_signals` is empty, so `dispatch_signals` never invokes anybody).
   One toplevel instance per process.
 
-  Tied to the code by differential execution (harness/evloop.c, histories `new … fb`); no theorem of
-  Props/C17, Props/C18 speaks about this configuration.  Core Lean only.
+  Tied to the code by differential execution (harness/evloop.c, histories `new … fb`); the theorems of
+  Props/C18 about this configuration are `fb_*` (Proof/EvLoopFb*.lean).  Core Lean only.
 -/
 namespace Tickit.EvLoop.Fb
 open Tickit.EvLoop
@@ -33,17 +34,6 @@ def PIPE0 : Int := 90
 
 /-- Read end of the most recent pipe. -/
 def pipeFd (st : St) : Int := PIPE0 + 2 * ((st.pipesMade : Int) - 1)
-
-/-- AddressSanitizer fills fresh `malloc`/`realloc` memory with this byte (`malloc_fill_byte`).  It is
-    what an *uninitialised read* observes in the harness build; the model needs it only where the
-    C code reads memory it never wrote (`pollfds[idx].revents` of a new slot, `pending_signals`). -/
-def fillByte : Nat := 0xbe
-
-/-- An uninitialised `short revents`. -/
-def fillRevents : Nat := fillByte * 256 + fillByte
-
-/-- Is signal `s` a member of an uninitialised `sigset_t`?  (bit `(s-1) % 8` of byte `(s-1) / 8`). -/
-def fillSigMember (s : Int) : Bool := (fillByte >>> ((s - 1) % 8).toNat) % 2 == 1
 
 /-- `sighandler` (tickit.c): `if(signal_observer) { sigaddset(&signal_observer->signal.pending, signum);
     write(signal_observer->signal.pipefds[1], "\0", 1); }` -/
@@ -87,33 +77,10 @@ def ensureSigchld (st : St) : St :=
   | some _ => st
   | none => { (watchSignal st SIGCHLD 0 (-3)).1 with sigchldwatch := some (watchSignal st SIGCHLD 0 (-3)).2 }
 
-/-- `watch->process.notify = n;` -/
-def setNotify (st : St) (a : Nat) (n : Option Nat) : St := st.setW a { st.getW a with notify := n }
-
-/-- Repaired `tickit_watch_process` for a child that has already exited, after `tickit_watch_later` returned
-    (`r` = state and handle): `watch->process.notify = <the later>; insert_watch(&t->processes, flags, watch);` -/
-def linkNotified (r : St × Nat) (a : Nat) (flags : Nat) : St :=
-  { (insertWatch (setNotify r.1 a (some r.2)) (setNotify r.1 a (some r.2)).procs flags a).1 with
-    procs := (insertWatch (setNotify r.1 a (some r.2)) (setNotify r.1 a (some r.2)).procs flags a).2 }
-
-/-- The tail of `tickit_watch_process` (lines 685–698): a child that has already exited is handed to a
-    `later` and the watch is *not* linked into `t->processes`. -/
-def linkProcess (st : St) (a : Nat) (pid : Int) (flags : Nat) : St :=
-  let r := waitpid st pid
-  if r.ret > 0 then
-    if st.cfg.processLinked then linkNotified (watchLater (r.st.setW a { r.st.getW a with wstatus := r.wstatus }) 0 (-4) a) a flags
-    else (watchLater (r.st.setW a { r.st.getW a with wstatus := r.wstatus }) 0 (-4) a).1
-  else { (insertWatch r.st r.st.procs flags a).1 with procs := (insertWatch r.st r.st.procs flags a).2 }
-
 /-- `tickit_watch_process` (the default loop has no `process` hook). -/
 def watchProcess (st : St) (pid : Int) (flags : Nat) (slot : Int) : St × Nat :=
   (linkProcess (ensureSigchld (st.alloc { type := .process, flags := flags &&& (BIND_UNBIND ||| BIND_DESTROY), slot := slot, pid := pid }).1)
      st.heap.length pid flags, st.heap.length)
-
-/-- A passive notification `(*watch->fn)(t, flags, NULL, user)` (unbind / destroy). -/
-def notify (st : St) (a : Nat) (flags : Nat) : St :=
-  let w := st.getW a
-  if w.slot ≥ 0 then st.emit (.cb w.slot flags .none) else st
 
 /-- `unwatch_signal` (the watch has been unlinked already): another watcher of the signal keeps the handler;
     otherwise `sigdelset(&t->signal.watched, signum); sigaction(signum, SIG_DFL)`.  `t->signal.pending` is not touched. -/
@@ -129,20 +96,10 @@ def cancelHook (st : St) (w : Watch) : St :=
   | .signal => unwatchSignal st w.signum
   | _ => st
 
-/-- `if(this->flags & TICKIT_BIND_UNBIND) (*this->fn)(t, TICKIT_EV_UNBIND, NULL, this->user);` -/
-def cancelNotify (st : St) (a : Nat) (w : Watch) : St :=
-  if w.flags &&& BIND_UNBIND ≠ 0 then notify st a EV_UNBIND else st
-
 /-- `tickit_watch_cancel` once the watch `a` (contents `w`) has been found in its list `l`. -/
 def cancelFound (st : St) (a : Nat) (w : Watch) (l : List Nat) : St :=
   cancelRest ((cancelHook (cancelNotify (setListOf st w.type (l.erase a)) a w) w).free a)
     ((l.dropWhile (· ≠ a)).drop 1)
-
-/-- The repaired tail of `tickit_watch_cancel`: a deferred callback that was not found in `t->laters` belongs to the
-    batch the running iteration has detached; the loop still owns it.
-    `if(watch->flags & UNBIND) (*watch->fn)(t, UNBIND, …); watch->type = WATCH_NONE;` -/
-def cancelDetached (st : St) (a : Nat) : St :=
-  (cancelNotify st a (st.getW a)).setW a { (cancelNotify st a (st.getW a)).getW a with type := .none }
 
 /-- `tickit_watch_cancel` (lines 701–770).  The loop reads `->next` of every node of the list the
     watch's type selects (also after it has found the watch). -/
@@ -250,10 +207,6 @@ def onSigchldAny (fuel : Nat) (st : St) : St :=
     (if !st.allLive st.procs then st.fail .procLoopThis else procSnapLoop st st.procs)
   else onSigchld fuel st st.procs.head?
 
-/-- Repaired `process_notify`: `watch->process.notify = NULL;` -/
-def clearNotify (st : St) (a : Nat) : St :=
-  if st.cfg.processLinked then setNotify st a none else st
-
 /-- `process_notify` (lines 655–662), the callback of the internal `later` of a pre-exited child. -/
 def processNotify (st : St) (later : Nat) : St :=
   if !st.live (st.getW later).puser then st.fail .invokeWatchType
@@ -355,16 +308,10 @@ def sigwatchLoop (fuel : Nat) (st : St) (signum : Int) (this : Option Nat) : St 
   (sigwatchLoopT fuel st signum this).1
 
 /-- The repaired `tickit_evloop_invoke_sigwatches`: a snapshot of `t->signals` is walked; an entry is used
-    only if `watch_is_linked` still finds it.  Returns the state and the watches visited, in order. -/
-def sigSnapLoopT (fuel : Nat) (st : St) (signum : Int) : List Nat → St × List Nat
-  | [] => (st, [])
-  | a :: rest =>
-    if !st.isOk then (st, [])
-    else if !st.allLive (st.signals.takeWhile (· ≠ a)) then (st.fail .sigLoopThis, [])
-    else if !st.signals.contains a then sigSnapLoopT fuel st signum rest
-    else if !st.live a then (st.fail .sigLoopThis, [])
-    else ((sigSnapLoopT fuel (sigCb fuel st a signum) signum rest).1,
-          a :: (sigSnapLoopT fuel (sigCb fuel st a signum) signum rest).2)
+    only if `watch_is_linked` still finds it.  Returns the state and the watches visited, in order.  The loop is
+    Model/EvLoop.lean's (`sigSnapLoopG`), run with the callbacks of this configuration. -/
+def sigSnapLoopT (fuel : Nat) (st : St) (signum : Int) (l : List Nat) : St × List Nat :=
+  sigSnapLoopG (fun st a => sigCb fuel st a signum) st l
 
 /-- `tickit_evloop_invoke_sigwatches` in the variant the source has. -/
 def sigDispatch (fuel : Nat) (st : St) (signum : Int) : St :=
@@ -407,12 +354,6 @@ def ppoll (st : St) (timeoutMs : Option Int) : St × Option Nat :=
     ({ pollRaise (pollScan st) with errno := EINTR }.emit (.poll timeoutMs (pollSlots st) none), none)
   else
     ((pollTimeout (pollRaise (pollScan st)) timeoutMs).emit (.poll timeoutMs (pollSlots st) (some 0)), some 0)
-
-/-- `revents` as the loop reads it: an entry that was never written is uninitialised memory. -/
-def slotRevents (s : PollSlot) : Nat :=
-  match s.revents with
-  | some r => r
-  | none => fillRevents
 
 /-- The loop of `on_sigpipe_readable` as shipped: `for(this = t->signals; this; this = this->next) if(sigismember(&pending,
     this->signal.signum)) (*this->fn)(this->t, TICKIT_EV_FIRE, NULL, this->user);` — `this->next` is read after the callback. -/
@@ -465,10 +406,6 @@ def ioLoop (fuel : Nat) (st : St) (idx : Nat) : St :=
     else if slotRevents (st.pfd.getD idx default) = 0 then ioLoop fuel st (idx + 1)
     else ioLoop fuel (ioCb fuel st (st.pfd.getD idx default)) (idx + 1)
 
-/-- `errno` as `evloop_run` looks at it when `ppoll` returned -1: `afterPoll` is the state right after
-    the wait, `st` the state after `tickit_evloop_invoke_timers`. -/
-def errnoSeen (afterPoll st : St) : Int := if afterPoll.cfg.errnoSaved then afterPoll.errno else st.errno
-
 /-- `evloop_run` after the wait (lines 159–188): timers and deferred callbacks, then descriptors or signals. -/
 def tickAfterPoll (fuel : Nat) (st : St) (ret : Option Nat) : St :=
   if !(invokeTimers fuel st).isOk then invokeTimers fuel st
@@ -477,10 +414,6 @@ def tickAfterPoll (fuel : Nat) (st : St) (ret : Option Nat) : St :=
     | none =>
       if errnoSeen st (invokeTimers fuel st) = EINTR then dispatchSignals fuel (invokeTimers fuel st)
       else invokeTimers fuel st
-
-/-- The timeout `evloop_run` hands to `ppoll` (lines 142–154). -/
-def tickTimeout (nohang : Bool) (msec : Int) : Option Int :=
-  if (if nohang then 0 else msec) > -1 then some (if nohang then 0 else msec) else none
 
 /-- One iteration of `evloop_run` under `tickit_tick`. -/
 def tick (fuel : Nat) (st : St) (nohang : Bool) : St :=
@@ -535,10 +468,6 @@ def build0 (cfg : Config) : St :=
 
 def build (cfg : Config) : St :=
   { (watchSignal (watchIo (build0 cfg) (-1) IO_IN 0 (-1)).1 SIGWINCH 0 (-2)).1 with log := [] }
-
-/-- `if(this->flags & (TICKIT_BIND_UNBIND|TICKIT_BIND_DESTROY)) (*this->fn)(this->t, TICKIT_EV_UNBIND|TICKIT_EV_DESTROY, NULL, this->user);` -/
-def destroyNotify (st : St) (a : Nat) : St :=
-  if (st.getW a).flags &&& (BIND_UNBIND ||| BIND_DESTROY) ≠ 0 then notify st a (EV_UNBIND ||| EV_DESTROY) else st
 
 /-- `destroy_watchlist`: the io list is given `cancel_io`, every other list no hook (`cancel_signal` is NULL). -/
 def destroyList (st : St) (t : WType) : List Nat → St
